@@ -619,6 +619,14 @@ pub fn driver_main(prop: Arc<dyn Prop>, tier: Tier) -> i32 {
     }
     agg.failing.sort_by_key(|f| f.0);
 
+    if let Ok(p) = std::env::var("VERIF_DUMP_FAILS") {
+        let mut o = String::new();
+        for (idx, out) in &agg.failing {
+            o.push_str(&serde_json::to_string(&json!({"idx": idx, "case": out.repr, "tags": out.tags, "fails": out.fails})).unwrap());
+            o.push('\n');
+        }
+        let _ = std::fs::write(p, o);
+    }
     // classify
     let mut clause_counts: BTreeMap<String, u64> = BTreeMap::new();
     for (_, out) in &agg.failing {
